@@ -91,6 +91,12 @@ def mask_file():
     mm.flat[5] = True
     f.vars['MA'] = RVar(('t', 'z', 'x'), ma, mm, OrderedDict([('units', 'ppb')]), fill=-999., masked=True)
     f.vars['AT'] = RVar(('z', 't', 'x'), f.vars['A'].data.copy() + 1, attrs=OrderedDict([('units', 'ppb')]))
+    # cells equal to, within 5e-6 (relative) of, and clearly apart from the `equal` and `values` thresholds:
+    # `equal` is documented as exact, `values` as numpy.ma.masked_values (rtol 1e-5, atol 1e-8)
+    e_, v_ = THR['equal'], THR['values']
+    ne = np.array([e_, e_ * (1 + 5e-6), e_ * (1 - 5e-6), e_ + 0.5, v_, v_ * (1 + 5e-6), v_ * (1 - 5e-6), v_ + 0.5,
+                   e_ + 1e-9, v_ - 1e-9, 1007.5, 1004.5]).reshape(2, 2, 3)
+    f.vars['NE'] = RVar(('t', 'z', 'x'), ne, attrs=OrderedDict([('units', 'ppb')]))
     return f
 
 
@@ -442,7 +448,7 @@ class Prop(core.Prop):
                     if 'greater_equal' in preds:
                         em |= d >= THR['greater_equal']
                     if 'values' in preds:
-                        em |= d == THR['values']
+                        em |= np.abs(d - THR['values']) <= 1e-8 + 1e-5 * abs(THR['values'])
                     if 'equal' in preds:
                         em |= d == THR['equal']
                     if 'invalid' in preds and d.dtype.kind in 'fc':
